@@ -70,6 +70,10 @@ pub struct FileWithSyncPersister;
 
 impl Persister for FilePersister {
     async fn append(&self, path: &str, bytes: &[u8]) -> Result<(), IggyError> {
+        #[cfg(iggy_verif)]
+        if crate::verif::take_append_fault() {
+            return Err(IggyError::CannotAppendToFile);
+        }
         let mut file = file::append(path)
             .await
             .with_error_context(|error| {
@@ -82,6 +86,12 @@ impl Persister for FilePersister {
                 format!("{COMPONENT} (error: {error}) - failed to write data to file: {path}")
             })
             .map_err(|_| IggyError::CannotWriteToFile)?;
+        #[cfg(iggy_verif)]
+        if crate::verif::fs_hook_installed() {
+            // the event means "the bytes are in the file": wait for tokio's in-flight write first
+            let _ = file.flush().await;
+            crate::verif::fs_event("append", path);
+        }
         Ok(())
     }
 
@@ -98,6 +108,12 @@ impl Persister for FilePersister {
                 format!("{COMPONENT} (error: {error}) - failed to write data to file: {path}")
             })
             .map_err(|_| IggyError::CannotWriteToFile)?;
+        #[cfg(iggy_verif)]
+        if crate::verif::fs_hook_installed() {
+            // the event means "the bytes are in the file": wait for tokio's in-flight write first
+            let _ = file.flush().await;
+            crate::verif::fs_event("overwrite", path);
+        }
         Ok(())
     }
 
@@ -108,12 +124,18 @@ impl Persister for FilePersister {
                 format!("{COMPONENT} (error: {error}) - failed to delete file: {path}")
             })
             .map_err(|_| IggyError::CannotDeleteFile)?;
+        #[cfg(iggy_verif)]
+        crate::verif::fs_event("delete", path);
         Ok(())
     }
 }
 
 impl Persister for FileWithSyncPersister {
     async fn append(&self, path: &str, bytes: &[u8]) -> Result<(), IggyError> {
+        #[cfg(iggy_verif)]
+        if crate::verif::take_append_fault() {
+            return Err(IggyError::CannotAppendToFile);
+        }
         let mut file = file::append(path)
             .await
             .with_error_context(|error| {
@@ -134,6 +156,12 @@ impl Persister for FileWithSyncPersister {
                 )
             })
             .map_err(|_| IggyError::CannotSyncFile)?;
+        #[cfg(iggy_verif)]
+        if crate::verif::fs_hook_installed() {
+            // the event means "the bytes are in the file": wait for tokio's in-flight write first
+            let _ = file.flush().await;
+            crate::verif::fs_event("append", path);
+        }
         Ok(())
     }
 
@@ -158,6 +186,12 @@ impl Persister for FileWithSyncPersister {
                 )
             })
             .map_err(|_| IggyError::CannotSyncFile)?;
+        #[cfg(iggy_verif)]
+        if crate::verif::fs_hook_installed() {
+            // the event means "the bytes are in the file": wait for tokio's in-flight write first
+            let _ = file.flush().await;
+            crate::verif::fs_event("overwrite", path);
+        }
         Ok(())
     }
 
@@ -168,6 +202,8 @@ impl Persister for FileWithSyncPersister {
                 format!("{COMPONENT} (error: {error}) - failed to delete file: {path}")
             })
             .map_err(|_| IggyError::CannotDeleteFile)?;
+        #[cfg(iggy_verif)]
+        crate::verif::fs_event("delete", path);
         Ok(())
     }
 }
